@@ -979,6 +979,7 @@ func (ex *Exec) runPath(fn *ssa.Function) (stop bool) {
 			case "violation", "end":
 			case "deadlock":
 				ex.pathEvents = append(ex.pathEvents, "deadlock")
+				ex.onStuck("deadlock: main goroutine can never continue: " + r.detail)
 			default:
 				ex.Unsupp = append(ex.Unsupp, r.reason+": "+r.detail)
 				stop = true
@@ -1031,6 +1032,20 @@ func (ex *Exec) onTargetPanic(msg string) {
 		return
 	}
 	ob := Obligation{Harness: ex.Harness, Case: ex.Case, Kind: "nopanic", Msg: msg, Path: ex.Paths}
+	r := ex.query(nil, true, ex.QuickMs, ex.FullMs)
+	ob.Status, ob.Solver, ob.Secs, ob.Err = r.Status, r.Solver, r.Secs, r.Err
+	if r.Status == "sat" {
+		ob.Model, ob.ModelX = ex.modelOf(r)
+		for k, v := range ex.Cases {
+			ob.Model["case:"+k] = float64(v)
+		}
+	}
+	ex.Obls = append(ex.Obls, ob)
+}
+
+// onStuck: every goroutine is blocked and main has not returned on this path.
+func (ex *Exec) onStuck(msg string) {
+	ob := Obligation{Harness: ex.Harness, Case: ex.Case, Kind: "nodeadlock", Msg: msg, Path: ex.Paths}
 	r := ex.query(nil, true, ex.QuickMs, ex.FullMs)
 	ob.Status, ob.Solver, ob.Secs, ob.Err = r.Status, r.Solver, r.Secs, r.Err
 	if r.Status == "sat" {
